@@ -20,6 +20,7 @@ Usage (see also notes/C20.md):
     tbl2 = make_table(fake, "t", create=False)        # a second handle on the same store
     fake.fail_next(op="put_object", key_substr="version-hint", code="SlowDown", when="after", http_status=503)
     fake.log                                          # list of dicts, one per request attempt
+    fake.page_size = 2; fake.max_keys_cap = 2         # tiny pages: paginator AND direct list calls get truncated
     project.DictReader(fake.objects, "t")             # independent reader over the same store
 
 Self-test:  cd /verif && PYTHONPATH=/repo/src:/verif /venv/bin/python -m harness.fakes3
